@@ -277,8 +277,55 @@ def record_event(event, src=None):
     return e
 
 
-def run(tpm_type, data, strict=True, cc=None, enc=None, source_kind="counting", front=None, step_cap=None,
-        marshal_kwargs=None, container=None):
+MUTATIONS = []  # events that no longer say what they said when they were emitted (reported by the worker)
+_RECENT = []  # the last traces of this process, looked at again later
+
+
+def recheck(t, when):
+    """An emitted event is a value the caller holds: it must still say the same thing later."""
+    for i, e in enumerate(t.events):
+        if e.kind != "M":
+            continue
+        raw = e.raw
+        try:
+            now = (rpath(raw.path), layout.tname(raw.type), None if raw.value is ... else int(raw.value))
+        except Exception as ex:
+            now = ("<unreadable>", type(ex).__name__, None)
+        if now != (e.path, e.tname, e.value):
+            if len(MUTATIONS) < 20:
+                MUTATIONS.append(dict(when=when, index=i, emitted=(pstr(e.path), e.tname, e.value), now=(pstr(now[0]) if isinstance(now[0], tuple) else now[0], now[1], now[2]),
+                                      data=t.data.hex()[:400], tname=getattr(t, "tname", None), args=getattr(t, "args", None)))
+            return False
+    return True
+
+
+def _remember(t):
+    recheck(t, "right after its decode ended")
+    _RECENT.append(t)
+    if len(_RECENT) > 24:
+        old = _RECENT.pop(0)
+        recheck(old, "24 decodes later in the same process")
+
+
+def recheck_recent():
+    for t in _RECENT:
+        recheck(t, "at the end of the shard")
+    del _RECENT[:]
+
+
+def run(*args, **kwargs):
+    t = _run(*args, **kwargs)
+    try:
+        t.tname = args[0] if isinstance(args[0], str) else getattr(args[0], "__name__", str(args[0]))
+        t.args = dict(strict=kwargs.get("strict", True), cc=kwargs.get("cc"), enc=kwargs.get("enc"))
+    except Exception:
+        pass
+    _remember(t)
+    return t
+
+
+def _run(tpm_type, data, strict=True, cc=None, enc=None, source_kind="counting", front=None, step_cap=None,
+         marshal_kwargs=None, container=None):
     """Decode ``data`` with the real decoder and return the Trace.
 
     tpm_type: class or name.  ``front`` is the front-end class (default Binary); ``container`` (bytes) is
